@@ -196,8 +196,8 @@ PROPS = {
     },
     "C03": {
         "props_file": "props/C03.v",
-        "flows": [(gen_kzg.gen, "c03", 40, 400), (gen_pc.gen, "c03", 96, 960)],
-        "oracles": [lambda c, lo: pc_mutations(c, lo, ("proofs", "proof_mut"))],
+        "flows": [(gen_kzg.gen, "c03", 40, 400), (gen_pc.gen, "c03", 160, 1600)],
+        "oracles": [lambda c, lo: pc_mutations(c, lo, ("proofs", "proof_mut", "proof_mut_v", "attack"))],
         "accept_diffs": ("mut.",),
         "title": "Evaluation binding (crafted proofs)",
     },
@@ -210,7 +210,7 @@ PROPS = {
     },
     "C10": {
         "props_file": "props/C10.v",
-        "flows": [(gen_kzg.gen, "c10", 40, 400), (gen_pc.gen, "c10", 96, 960)],
+        "flows": [(gen_kzg.gen, "c10", 40, 400), (gen_pc.gen, "c10", 160, 1600)],
         "oracles": [oracle_kzg_muts, pc_honest, lambda c, lo: pc_mutations(c, lo, ("value", "comm_swap", "cancel", "proof_mut"))],
         "accept_diffs": ("mut.", "batch."),
         "title": "Verifiers decide the published relation",
